@@ -59,6 +59,11 @@ pub enum Req {
     /// with_channel: validate holder commitment 1 carrying one outgoing HTLC of PAY_SAT for the approved
     /// hash and revoke commitment 0 (the revocation re-validates and applies the payment)
     PayHv(usize),
+    /// handler level, protocol version 4 (before RevokeCommitmentTx existed): one ValidateCommitmentTx2
+    /// request validates holder commitment 1 (content variant 0 or 1) AND revokes commitment 0
+    HVal(usize, u8),
+    /// a holder commitment validation that the policy refuses (absurd fee): refusals are routine
+    Refused(usize),
     /// with_channel_base: read a per-commitment point
     Point(usize),
     Forget(usize),
@@ -86,7 +91,7 @@ impl Req {
     /// request kind in the generated lock table
     pub fn kind(&self) -> &'static str {
         match self {
-            Req::Validate(_) | Req::SignHolder(_) | Req::SignCp(_) | Req::PayCp(_) | Req::PayCp1(_) | Req::PayHv(_) => "channel_request",
+            Req::Validate(_) | Req::SignHolder(_) | Req::SignCp(_) | Req::PayCp(_) | Req::PayCp1(_) | Req::PayHv(_) | Req::HVal(_, _) | Req::Refused(_) => "channel_request",
             Req::Point(_) => "channel_base_request",
             Req::Forget(_) | Req::ForgetDb(_) => "forget_channel",
             Req::Balance => "channel_balance",
@@ -111,6 +116,8 @@ impl Req {
             Req::PayCp(c) => format!("req {} paycp {}", tid, c),
             Req::PayCp1(c) => format!("req {} paycp1 {}", tid, c),
             Req::PayHv(c) => format!("req {} payhv {}", tid, c),
+            Req::HVal(c, v) => format!("req {} hval{} {}", tid, v, c),
+            Req::Refused(c) => format!("req {} refused {}", tid, c),
             Req::Point(c) => format!("req {} point {}", tid, c),
             Req::Forget(c) => format!("req {} forget {}", tid, c),
             Req::Balance => format!("req {} balance", tid),
@@ -138,6 +145,9 @@ impl Req {
             "paycp" => Req::PayCp(arg()? as usize),
             "paycp1" => Req::PayCp1(arg()? as usize),
             "payhv" => Req::PayHv(arg()? as usize),
+            "hval0" => Req::HVal(arg()? as usize, 0),
+            "hval1" => Req::HVal(arg()? as usize, 1),
+            "refused" => Req::Refused(arg()? as usize),
             "point" => Req::Point(arg()? as usize),
             "forget" => Req::Forget(arg()? as usize),
             "balance" => Req::Balance,
@@ -256,7 +266,7 @@ impl shuttle::scheduler::Scheduler for PreemptScheduler {
 }
 
 /// one lock event with the lock already classified
-#[derive(Clone, Debug, PartialEq, Eq)]
+#[derive(Clone, Debug, PartialEq, Eq, serde::Serialize, serde::Deserialize)]
 pub struct Ev {
     pub tid: usize,
     /// 'w' want, 'a' acquired, 'r' released, 'f' thread finished
@@ -274,7 +284,7 @@ impl Ev {
     }
 }
 
-#[derive(Clone, Debug, Default)]
+#[derive(Clone, Debug, Default, serde::Serialize, serde::Deserialize)]
 pub struct RunResult {
     /// all threads joined
     pub completed: bool,
@@ -293,6 +303,8 @@ pub struct RunResult {
 }
 
 struct World {
+    /// the node's clock (advances on every read once the requests start)
+    clock: Arc<SteppingClock>,
     /// the signed invoices of the `invoice x` requests
     invoices: Vec<lightning_signer::invoice::Invoice>,
     /// the harness-side store (what a restart would read back)
@@ -301,6 +313,10 @@ struct World {
     chans: Vec<TestChannelContext>,
     /// prepared commitment 1 with counterparty signatures, per channel
     commits: Vec<Option<(TestCommitmentTxContext, Signature, Vec<Signature>)>>,
+    /// a second, different content for commitment 1 (other balance split), per channel
+    commits_b: Vec<Option<(TestCommitmentTxContext, Signature, Vec<Signature>)>>,
+    /// real ChannelHandlers negotiated at protocol version 4, per channel
+    handlers: Vec<Option<vls_protocol_signer::handler::ChannelHandler>>,
     /// prepared commitment 1 with one outgoing HTLC for the approved payment hash, per channel
     pay_commits: Vec<Option<(TestCommitmentTxContext, Signature, Vec<Signature>)>>,
     onchain: (bitcoin::Transaction, TestFundingTxContext),
@@ -499,26 +515,71 @@ const CHANNEL_VALUE: u64 = 3_000_000;
 const PAY_SAT: u64 = 50_000;
 const PAY_HASH: [u8; 32] = [0x77; 32];
 
-fn make_node_ctx() -> (TestNodeContext, Arc<TrackingPersister>) {
+/// The node's clock in the C20 world: constant during setup; once armed (when the requests start, in
+/// concurrent and sequential runs alike) every read returns a later time, one velocity bucket (300 s)
+/// after the previous read.  Two reads of one request are therefore never equal, and a time that was
+/// read early and used late is older than everything read in between — which is what happens with a
+/// real clock when requests overlap.
+pub struct SteppingClock {
+    base: std::time::Duration,
+    reads: std::sync::atomic::AtomicU64,
+    armed: std::sync::atomic::AtomicBool,
+}
+
+pub const CLOCK_STEP_SECS: u64 = 300;
+
+impl SteppingClock {
+    fn arm(&self) {
+        self.armed.store(true, std::sync::atomic::Ordering::SeqCst);
+    }
+}
+
+impl lightning_signer::SendSync for SteppingClock {}
+
+impl lightning_signer::util::clock::Clock for SteppingClock {
+    fn now(&self) -> std::time::Duration {
+        use std::sync::atomic::Ordering;
+        if self.armed.load(Ordering::SeqCst) {
+            let k = self.reads.fetch_add(1, Ordering::SeqCst) + 1;
+            self.base + std::time::Duration::from_secs(CLOCK_STEP_SECS * k)
+        } else {
+            self.base
+        }
+    }
+}
+
+/// Time advances in every scenario except those with the composite payment requests (`payhv` = validate
+/// + revoke, `paycp*`): they rely on the 60-second keysend approval made during setup, and `payhv`
+/// bundles two protocol requests, so a heartbeat pruning the expired approval between its two halves
+/// would be an artefact of the bundling, not an interleaving of protocol requests.
+fn clock_advances(sc: &Scenario) -> bool {
+    !sc.threads.iter().flatten().any(|q| matches!(q, Req::PayCp(_) | Req::PayCp1(_) | Req::PayHv(_)))
+}
+
+fn make_node_ctx() -> (TestNodeContext, Arc<TrackingPersister>, Arc<SteppingClock>) {
     use lightning_signer::bitcoin::secp256k1::Secp256k1;
     use lightning_signer::node::NodeServices;
     use lightning_signer::policy::simple_validator::SimpleValidatorFactory;
-    use lightning_signer::util::clock::StandardClock;
     let mut seed = [0u8; 32];
     seed.copy_from_slice(&hex::decode(TEST_SEED[1]).unwrap());
     let store = Arc::new(TrackingPersister {
         channels: std::sync::Mutex::new(BTreeSet::new()),
         writes: std::sync::Mutex::new(BTreeMap::new()),
     });
+    let clock = Arc::new(SteppingClock {
+        base: std::time::SystemTime::now().duration_since(std::time::UNIX_EPOCH).unwrap(),
+        reads: std::sync::atomic::AtomicU64::new(0),
+        armed: std::sync::atomic::AtomicBool::new(false),
+    });
     let services = NodeServices {
         validator_factory: Arc::new(SimpleValidatorFactory::new()),
         starting_time_factory: make_genesis_starting_time_factory(TEST_NODE_CONFIG.network),
         persister: store.clone(),
-        clock: Arc::new(StandardClock()),
+        clock: clock.clone(),
         trusted_oracle_pubkeys: vec![],
     };
     let node = Arc::new(Node::new(TEST_NODE_CONFIG, &seed, vec![], services));
-    (TestNodeContext { node, secp_ctx: Secp256k1::signing_only() }, store)
+    (TestNodeContext { node, secp_ctx: Secp256k1::signing_only() }, store, clock)
 }
 
 /// a channel stub created through `new_channel(dbid, peer)`, with matching counterparty keys and the
@@ -532,13 +593,40 @@ fn chan_ctx_by_dbid(node_ctx: &TestNodeContext, dbid: u64) -> TestChannelContext
     TestChannelContext { channel_id, setup, counterparty_keys }
 }
 
+/// a real `ChannelHandler` for (PEER, dbid) on the node, negotiated at protocol `version`
+fn channel_handler(node: &Arc<Node>, dbid: u64, version: u32) -> Option<vls_protocol_signer::handler::ChannelHandler> {
+    use vls_protocol::msgs::{self, Message};
+    use vls_protocol_signer::handler::{Handler, InitHandler, RootHandler};
+    let mut init = InitHandler::new(0, node.clone(), Arc::new(vls_protocol_signer::approver::PositiveApprover()), version);
+    let m = msgs::HsmdInit {
+        key_version: vls_protocol::model::Bip32KeyVersion { pubkey_version: 0, privkey_version: 0 },
+        chain_params: lightning_signer::bitcoin::BlockHash::all_zeros(),
+        encryption_key: None,
+        dev_privkey: None,
+        dev_bip32_seed: None,
+        dev_channel_secrets: None,
+        dev_channel_secrets_shaseed: None,
+        hsm_wire_min_version: 2,
+        hsm_wire_max_version: version,
+    };
+    let (done, _) = init.handle(Message::HsmdInit(m)).ok()?;
+    if !done {
+        return None;
+    }
+    let root: RootHandler = init.into();
+    Some(root.for_new_client(1, vls_protocol::model::PubKey(PEER), dbid))
+}
+
 fn build_world(sc: &Scenario) -> World {
-    let (node_ctx, store) = make_node_ctx();
+    let (node_ctx, store, clock) = make_node_ctx();
     let mut chans = Vec::new();
     let mut commits = Vec::new();
     let mut pay_commits = Vec::new();
     let needs = |f: &dyn Fn(&Req) -> bool| sc.threads.iter().flatten().any(|q| f(q));
-    let need_plain = needs(&|q| matches!(q, Req::Validate(_)));
+    let need_plain = needs(&|q| matches!(q, Req::Validate(_) | Req::HVal(_, _) | Req::Refused(_)));
+    let need_handler = needs(&|q| matches!(q, Req::HVal(_, _)));
+    let mut commits_b = Vec::new();
+    let mut handlers = Vec::new();
     let need_pay = needs(&|q| matches!(q, Req::PayHv(_)));
     for i in 0..sc.nchan {
         let nn = i + 1;
@@ -573,6 +661,24 @@ fn build_world(sc: &Scenario) -> World {
             commits.push(Some((c1, s1, h1)));
         } else {
             commits.push(None);
+        }
+        if need_handler {
+            let mut c1 = channel_commitment(
+                &node_ctx,
+                &cc,
+                1,
+                0,
+                CHANNEL_VALUE - 1000 - 25_000 * (nn as u64),
+                25_000 * (nn as u64),
+                vec![],
+                vec![],
+            );
+            let (s1, h1) = counterparty_sign_holder_commitment(&node_ctx, &cc, &mut c1);
+            commits_b.push(Some((c1, s1, h1)));
+            handlers.push(channel_handler(&node_ctx.node, nn as u64, 4));
+        } else {
+            commits_b.push(None);
+            handlers.push(None);
         }
         // commitment 1 with one offered (outgoing) HTLC of PAY_SAT for PAY_HASH
         if need_pay {
@@ -615,7 +721,7 @@ fn build_world(sc: &Scenario) -> World {
     tx_ctx.add_wallet_output(&node_ctx, SpendType::P2wpkh, 2, 999_000);
     let tx = tx_ctx.to_tx();
     let invoices = (0..3u8).map(|x| make_current_test_invoice(x, 10_000 + x as u64)).collect();
-    World { invoices, store, node_ctx, chans, commits, pay_commits, onchain: (tx, tx_ctx), stub, blocks: std::sync::Mutex::new(Vec::new()), coinbase_ctr }
+    World { clock, invoices, store, node_ctx, chans, commits, commits_b, handlers, pay_commits, onchain: (tx, tx_ctx), stub, blocks: std::sync::Mutex::new(Vec::new()), coinbase_ctr }
 }
 
 fn status_str<T>(r: &Result<T, lightning_signer::util::status::Status>) -> String {
@@ -674,6 +780,42 @@ fn do_req(w: &World, r: &Req) -> String {
                 match r {
                     Ok((n, s)) => format!("ok {} {}", n, &hex::encode(s.serialize_compact())[..8]),
                     Err(e) => format!("err:{:?}:{}", e.code(), e.message()),
+                }
+            }
+        },
+        Req::HVal(c, v) => match (w.chans.get(*c), w.handlers.get(*c).and_then(|h| h.as_ref())) {
+            (Some(_), Some(h)) => {
+                use vls_protocol::model::{BitcoinSignature, Signature as WireSig};
+                use vls_protocol::msgs::{self, Message};
+                use vls_protocol_signer::handler::Handler;
+                let (c1, s1, _) = if *v == 0 { w.commits[*c].as_ref() } else { w.commits_b[*c].as_ref() }.expect("prepared commitment");
+                let m = msgs::ValidateCommitmentTx2 {
+                    commitment_number: 1,
+                    feerate: c1.feerate_per_kw,
+                    to_local_value_sat: c1.to_broadcaster,
+                    to_remote_value_sat: c1.to_countersignatory,
+                    htlcs: Vec::new().into(),
+                    signature: BitcoinSignature { signature: WireSig(s1.serialize_compact()), sighash: 1 },
+                    htlc_signatures: Vec::new().into(),
+                };
+                match h.handle(Message::ValidateCommitmentTx2(m)) {
+                    Ok(reply) => format!("ok {}", &hex::encode(reply.as_vec())[..40.min(reply.as_vec().len() * 2)]),
+                    Err(e) => format!("err:{:?}", e).chars().take(140).collect(),
+                }
+            }
+            _ => "nochan".into(),
+        },
+        Req::Refused(c) => match w.chans.get(*c) {
+            None => "nochan".into(),
+            Some(cc) => {
+                let (_, s1, _) = w.commits[*c].as_ref().expect("prepared commitment");
+                // half of the channel value would be left as fee: refused by the policy
+                let r = node.with_channel(&cc.channel_id, |chan| {
+                    chan.validate_holder_commitment_tx_phase2(1, 0, CHANNEL_VALUE / 2, 0, vec![], vec![], s1, &[])
+                });
+                match r {
+                    Ok(_) => "ok".into(),
+                    Err(e) => format!("err:{:?}:{}", e.code(), e.message().chars().take(90).collect::<String>()),
                 }
             }
         },
@@ -1033,7 +1175,109 @@ fn scheduler_run<F: Fn() + Send + Sync + 'static>(sched: Sched, seed: u64, ps: &
 
 /// Run the scenario.  `order = None`: one thread per request list under the given scheduler, tap on.
 /// `order = Some(seq)`: sequentially in one thread, `seq` = thread index of each successive request.
+struct Worker {
+    child: std::process::Child,
+    stdin: std::process::ChildStdin,
+    stdout: std::io::BufReader<std::process::ChildStdout>,
+}
+
+thread_local! {
+    static WORKER: RefCell<Option<Worker>> = RefCell::new(None);
+}
+
+fn spawn_worker() -> Option<Worker> {
+    let exe = std::env::current_exe().ok()?;
+    let mut child = std::process::Command::new(exe)
+        .arg("--worker")
+        .stdin(std::process::Stdio::piped())
+        .stdout(std::process::Stdio::piped())
+        .stderr(std::process::Stdio::null())
+        .spawn()
+        .ok()?;
+    let stdin = child.stdin.take()?;
+    let stdout = std::io::BufReader::new(child.stdout.take()?);
+    Some(Worker { child, stdin, stdout })
+}
+
+/// Every run happens in a separate worker process (`harness-c20 --worker`, one request per line): a
+/// run that ABORTS the process — a panic while another panic unwinds, e.g. an arithmetic overflow under
+/// a lock followed by a destructor that needs the same lock — is an outcome to report, not the end of
+/// the check.  The worker is restarted after an abort.
 pub fn run_scenario(sc: &Scenario, sched: Sched, seed: u64, order: Option<Vec<usize>>) -> RunResult {
+    use std::io::{BufRead, Write};
+    if std::env::var("VERIF_C20_NOFORK").is_ok() {
+        return run_scenario_inproc(sc, sched, seed, order);
+    }
+    let sname = match sched {
+        Sched::Pct => "pct",
+        Sched::Random => "random",
+        Sched::Preempt => "preempt",
+    };
+    let mut lines = scenario_lines(sc);
+    lines.push(format!("run {} {}", sname, seed));
+    let req = serde_json::json!({ "ops": lines, "order": order }).to_string();
+    WORKER.with(|w| {
+        let mut w = w.borrow_mut();
+        if w.is_none() {
+            *w = spawn_worker();
+        }
+        let wk = match w.as_mut() {
+            Some(x) => x,
+            None => return run_scenario_inproc(sc, sched, seed, order),
+        };
+        let mut resp = String::new();
+        let ok = wk.stdin.write_all(req.as_bytes()).is_ok()
+            && wk.stdin.write_all(b"\n").is_ok()
+            && wk.stdin.flush().is_ok()
+            && wk.stdout.read_line(&mut resp).map(|n| n > 0).unwrap_or(false);
+        if ok {
+            if let Ok(r) = serde_json::from_str::<RunResult>(&resp) {
+                return r;
+            }
+        }
+        // the worker died on this request
+        let status = wk.child.wait().map(|s| format!("{:?}", s)).unwrap_or_default();
+        *w = None;
+        RunResult {
+            completed: false,
+            failure: Some(format!(
+                "process aborted ({}): a request panicked while another panic was unwinding",
+                status
+            )),
+            ..Default::default()
+        }
+    })
+}
+
+/// `harness-c20 --worker`: executes one run per input line, prints one JSON result per line
+pub fn worker_loop() {
+    use std::io::{BufRead, Write};
+    std::panic::set_hook(Box::new(|_| {}));
+    let stdin = std::io::stdin();
+    let stdout = std::io::stdout();
+    for line in stdin.lock().lines() {
+        let line = match line {
+            Ok(l) => l,
+            Err(_) => break,
+        };
+        let v: serde_json::Value = match serde_json::from_str(&line) {
+            Ok(v) => v,
+            Err(_) => break,
+        };
+        let ops: Vec<String> = v["ops"].as_array().map(|a| a.iter().filter_map(|x| x.as_str().map(|s| s.to_string())).collect()).unwrap_or_default();
+        let order: Option<Vec<usize>> = v["order"].as_array().map(|a| a.iter().filter_map(|x| x.as_u64().map(|n| n as usize)).collect());
+        let r = match parse_case(&ops) {
+            Some((sc, sched, seed, _)) => run_scenario_inproc(&sc, sched, seed, order),
+            None => RunResult { completed: false, failure: Some("worker: malformed request".into()), ..Default::default() },
+        };
+        let mut out = stdout.lock();
+        let _ = out.write_all(serde_json::to_string(&r).unwrap_or_default().as_bytes());
+        let _ = out.write_all(b"\n");
+        let _ = out.flush();
+    }
+}
+
+fn run_scenario_inproc(sc: &Scenario, sched: Sched, seed: u64, order: Option<Vec<usize>>) -> RunResult {
     let shared: Arc<std::sync::Mutex<RunResult>> = Arc::new(std::sync::Mutex::new(RunResult::default()));
     let classes: Arc<std::sync::Mutex<HashMap<usize, String>>> = Arc::new(std::sync::Mutex::new(HashMap::new()));
     let sc2 = sc.clone();
@@ -1051,6 +1295,9 @@ pub fn run_scenario(sc: &Scenario, sched: Sched, seed: u64, order: Option<Vec<us
         let w = Arc::new(build_world(&sc2));
         if concurrent {
             *cl2.lock().unwrap() = classify(&w);
+            if clock_advances(&sc2) {
+                w.clock.arm();
+            }
             // probes above added a keysend/invoice: rebuild nothing, they are part of every run
             // (sequential runs do the same probe below so that the states are comparable)
             tap_enable(true);
@@ -1078,6 +1325,9 @@ pub fn run_scenario(sc: &Scenario, sched: Sched, seed: u64, order: Option<Vec<us
             tap_enable(false);
         } else {
             let _ = classify(&w);
+            if clock_advances(&sc2) {
+                w.clock.arm();
+            }
             let mut next = vec![0usize; sc2.threads.len()];
             for &tid in order.as_ref().unwrap() {
                 let i = next[tid];
@@ -1479,7 +1729,8 @@ impl C20 {
         for e in &r.trace {
             ops.push(e.line());
         }
-        ops.push("end".into());
+        let aborted = r.failure.as_deref().map(|m| m.starts_with("process aborted")).unwrap_or(false);
+        ops.push(if aborted { "end abort".into() } else { "end".into() });
         self.lockdep(&sc, &r);
         let (points, completed) = (r.points, r.completed);
         self.run_cache.borrow_mut().insert(ops.join("\n"), r);
@@ -1610,7 +1861,7 @@ impl C20 {
         let n_ops = ops.len();
         // one output line per op: everything before `end` is "ok"
         for l in ops {
-            if l == "end" {
+            if l.starts_with("end") {
                 break;
             }
             co.out.push("ok".into());
@@ -1678,6 +1929,15 @@ impl C20 {
                     desc: format!("shuttle: {} | wait-for cycle: {}", msg.lines().next().unwrap_or(""), desc),
                     at: n_ops - 1,
                 });
+            } else if msg.starts_with("process aborted") {
+                // the process died: a panic while another panic was unwinding (no lock trace survives)
+                verdict = "abort".to_string();
+                co.tags.insert("abort".into());
+                co.violations.push(Violation {
+                    kind: "abort".into(),
+                    desc: format!("the signer process aborts under this schedule: {}", msg),
+                    at: n_ops - 1,
+                });
             } else {
                 verdict = "panic".to_string();
                 co.tags.insert("panic".into());
@@ -1694,7 +1954,7 @@ impl C20 {
         if let Some(d) = slot_descending(&r.trace, nthreads) {
             co.violations.push(Violation { kind: "lock-order:slot-descending".into(), desc: d, at: n_ops - 1 });
         }
-        let truncated = !ops.iter().any(|l| l == "end");
+        let truncated = !ops.iter().any(|l| l.starts_with("end"));
         if !(embedded == observed.as_slice() || (truncated && observed.starts_with(embedded))) {
             // a hand-edited / shrunk case whose embedded trace is not the trace of its scenario
             if std::env::var("VERIF_C20_DET").is_ok() {
@@ -1735,7 +1995,7 @@ fn gen_scenario(rng: &mut Rng) -> Scenario {
         let mut v = Vec::new();
         for _ in 0..len {
             let c = rng.below(nchan as u64) as usize;
-            let r = match rng.below(38) {
+            let r = match rng.below(40) {
                 0..=3 => Req::Validate(c),
                 4 => Req::SignCp(c),
                 5 => Req::SignHolder(c),
@@ -1759,7 +2019,9 @@ fn gen_scenario(rng: &mut Rng) -> Scenario {
                 29 => Req::RmBlock,
                 30..=32 => Req::PayCp(c),
                 33 => Req::PayCp1(c),
-                _ => Req::PayHv(c),
+                34..=35 => Req::PayHv(c),
+                36..=37 => Req::HVal(c, rng.below(2) as u8),
+                _ => Req::Refused(c),
             };
             v.push(r);
         }
@@ -1837,6 +2099,15 @@ impl Group for C20 {
             p(1, true, Req::Forget(9), Req::Forget(9)),
             p(1, false, Req::Invoice(1), Req::Invoice(1)),
             p(1, false, Req::Keysend(1), Req::Keysend(1)),
+            // approvals and fee control with a clock that advances on every read: a time read before the
+            // node-state lock and used after another request's later time must not break the windows
+            p(1, false, Req::Keysend(1), Req::Keysend(2)),
+            p(1, false, Req::Invoice(1), Req::Invoice(2)),
+            p(1, false, Req::Invoice(1), Req::Keysend(2)),
+            p(1, false, Req::Keysend(1), Req::Heartbeat),
+            p(1, false, Req::Invoice(1), Req::Heartbeat),
+            p(1, false, Req::Keysend(1), Req::Onchain),
+            p(1, false, Req::Invoice(1), Req::Onchain),
             p(1, true, Req::SetupChan, Req::SetupChan),
             p(1, false, Req::Forget(0), Req::Forget(0)),
             // id reuse
@@ -1847,6 +2118,18 @@ impl Group for C20 {
             p(2, false, Req::PayHv(0), Req::PayHv(1)),
             p(2, false, Req::PayCp1(0), Req::PayCp1(1)),
             p(2, false, Req::PayCp(0), Req::PayHv(1)),
+            // one handler request = validation + revocation of one channel (protocol version 4)
+            p(1, false, Req::HVal(0, 0), Req::HVal(0, 1)),
+            p(1, false, Req::HVal(0, 0), Req::HVal(0, 0)),
+            p(1, false, Req::HVal(0, 0), Req::SignHolder(0)),
+            p(1, false, Req::HVal(0, 1), Req::Validate(0)),
+            p(1, false, Req::HVal(0, 0), Req::Heartbeat),
+            // refused validations against the tracker users
+            p(1, false, Req::Refused(0), Req::Heartbeat),
+            p(1, true, Req::Refused(0), Req::SetupChan),
+            p(1, false, Req::Refused(0), Req::SignOnchain),
+            p(1, false, Req::Refused(0), Req::Validate(0)),
+            p(1, false, Req::Refused(0), Req::AddBlock(0)),
             // same channel read-modify-write
             p(1, false, Req::Validate(0), Req::SignCp(0)),
             p(1, false, Req::Validate(0), Req::SignHolder(0)),
